@@ -40,6 +40,11 @@ pub fn set_initial(p: &Program, b: &Built, m: &mut Machine, input: &State) {
         if v.scope != Scope::Global {
             continue;
         }
+        if let VarKind::HwReg(a) = v.kind {
+            // what a read of the register returns until something writes it
+            m.mem[a as usize] = (input.vals[i][0] & 0xff) as u8;
+            continue;
+        }
         let rv = match find(b, &v.name) {
             Some(r) => r.clone(),
             None => continue,
